@@ -66,6 +66,11 @@ FIRST_LOOK = {  # recorded when the seed was first run, before any rule was touc
  "C28-13": "missed", "C28-14": "missed", "C28-15": "missed",
  "C10-13": "caught", "C10-14": "missed by C10, caught by C07", "C10-15": "caught",
  "C06-13": "missed", "C06-14": "missed", "C06-15": "missed",
+ "C30-13": "caught", "C30-14": "caught", "C30-15": "caught",
+ "C11-13": "caught", "C11-14": "caught", "C11-15": "caught",
+ "C31-13": "caught", "C31-14": "caught", "C31-15": "missed",
+ "C07-13": "missed", "C07-14": "missed by C07, caught by C06", "C07-15": "caught",
+ "C08-13": "missed", "C08-14": "caught", "C08-15": "missed by C08, caught by C10",
  "C10-10": "missed", "C10-11": "missed", "C10-12": "unknown-shape alarm only (a false one: R10e took `Pos{}` in reset() for state; corrected)",
 }
 def key(d):
